@@ -46,6 +46,11 @@ func (m *Machine) mutexOf(p Value) (*mutexState, *StructV) {
 
 // poolState models sync.Pool as seen by one P without GC: a private slot that Put fills first and
 // Get empties first, and a LIFO shared list.
+type hashApp struct {
+	in  Str
+	out *term.Term
+}
+
 type poolState struct {
 	private Value
 	hasPriv bool
@@ -248,6 +253,38 @@ func buildIntrinsics() map[string]Intrinsic {
 			return Str{}
 		}
 		return Str{a: th.m.copyBytes(s.a, s.off, s.len), len: s.len}
+	}
+
+	// ----- xxh3.Hash: an arbitrary function of (length, bytes) that is injective on its low 32
+	// bits over the strings of one path (colliding enum strings are outside the claim, see DESIGN) -----
+	I["github.com/zeebo/xxh3.Hash"] = func(th *Thread, fn *ssa.Function, a []Value) Value {
+		m := th.m
+		t := m.T
+		s := a[0].(Slice)
+		in := Str{a: s.a, off: s.off, len: s.len}
+		if in.len > 0 {
+			in = Str{a: m.copyBytes(s.a, s.off, s.len), len: s.len}
+		}
+		apps, _ := m.side["xxh3"].(*[]hashApp)
+		if apps == nil {
+			apps = &[]hashApp{}
+			m.side["xxh3"] = apps
+		}
+		// an application on syntactically equal bytes returns the same term
+		for _, p := range *apps {
+			if eq := m.strEq(p.in, in); eq.IsTrue() {
+				return p.out
+			}
+		}
+		h := m.newInput("xxh3", 64)
+		for _, p := range *apps {
+			eq := m.strEq(p.in, in)
+			same := t.Eq(t.Extract(31, 0, p.out), t.Extract(31, 0, h))
+			// equal inputs <=> equal (truncated) hashes, and equal inputs => equal hashes
+			m.assume(t.And(t.Eq(eq, same), t.Implies(eq, t.Eq(p.out, h))))
+		}
+		*apps = append(*apps, hashApp{in, h})
+		return h
 	}
 
 	// ----- math/bits -----
